@@ -26,7 +26,7 @@ COMPONENTS = {
 ASSUMPTIONS = [
     'the report is read from window.spendingData in the written HTML and from the JSON document on stdout',
     'faults are injected on non-supplemental sources only (rules may legitimately depend on supplemental rows)',
-    'a failing source is "reported" when some output line contains its name together with a failure notice (not found / error / cannot / unreadable / failed)',
+    'a failing source is "reported" when some output line contains its name together with a failure notice (not found / error / cannot / could not / unreadable / failed / unable / missing / skipped / no such / invalid / denied / problem / warning)',
     'generated strings avoid C12 territory (template placeholders, </script>, colliding merchant ids) and C08 territory (ill-typed expressions)',
     'supplemental amounts are written plain and positive (the supplemental reader documents no amount styles)',
 ]
@@ -37,7 +37,7 @@ RULE = ('budget = 1-3 primary sources with independent layouts (column order, sk
         'distinct_nontrivial counts distinct configuration vectors (n sources x delimiters x headers x decimals x signs x rules kind x mode x views x '
         'supplemental x fault kind) whose report had at least one categorised and one Unknown transaction.')
 FAULTS = ['absent', 'EACCES', 'EISDIR', 'EIO', 'bad-utf8']
-NOTICE = re.compile(r'not found|error|cannot|unreadable|failed|unable', re.I)
+NOTICE = re.compile(r"not found|error|cannot|can't|could not|couldn't|unreadable|failed|fail|unable|missing|skip|no such|invalid|denied|problem|warning", re.I)
 
 
 def runs(tier):
